@@ -326,7 +326,10 @@ def run(ctx):
         res.sample({"file": files[12][0], "size": len(files[12][1])})
     finally:
         tree.close()
-    res.degraded = list(pyg.degraded)
+    # end to end: Model/Serve.answer (request line -> whole response) vs the real server, byte for byte
+    import sitecorr
+    sitecorr.compare_answers(ctx, res, ctx.n(4, 40), "C04")
+    res.degraded = list(pyg.degraded) + [d for d in res.degraded if d not in pyg.degraded]
     return res
 
 
